@@ -3,7 +3,7 @@
 From Coq Require Import List Bool Arith ZArith Reals QArith String.
 From PL.C10 Require Import ModelCircuit SpecDDNNF ModelOracle ProofsWMC ProofsInstances.
 From PL.C12 Require Import ModelPy GenSemirings.
-From PL.C05 Require Import ModelNSP Proofs ProofsLog ProofsNSP ModelSym ProofsSymbolic.
+From PL.C05 Require Import ModelNSP Proofs ProofsLog ProofsNSP ModelSym ProofsSymbolic SpecReader ProofsReader.
 Import ListNotations.
 Local Open Scope nat_scope.
 
@@ -112,6 +112,27 @@ Theorem C05_symbolic_facts : forall (aval : string -> R), aval "0"%string = 0%R 
     Some (c_eval ProbROps (fun v b => if b then aval (q v) else (1 - aval (q v))%R) C).
 Proof. exact symbolic_facts. Qed.
 Print Assumptions C05_symbolic_facts.
+
+(* `readR` is not an ad-hoc reader: it computes the value of the standard stratified expression grammar on
+   token lists (SpecReader.v: parentheses > left-associative * / > left-associative + -; the token-level
+   counterpart of C12's string-level `den_prod`).  Whenever the grammar derives (ts, v) the reader returns v ... *)
+Theorem C05_reader_is_grammar : forall (aval : string -> R) ts v, g_sum aval ts v -> readR aval ts = Some v.
+Proof. exact reader_complete. Qed.
+Print Assumptions C05_reader_is_grammar.
+
+(* ... so a token list has at most one value under the grammar (the reading is unambiguous; this is the
+   uniqueness that C12_symbolic_*_partial leave open, at the level of tokens) ... *)
+Theorem C05_grammar_unambiguous : forall (aval : string -> R) ts v v',
+  g_sum aval ts v -> g_sum aval ts v' -> v = v'.
+Proof. exact grammar_unambiguous. Qed.
+Print Assumptions C05_grammar_unambiguous.
+
+(* ... and the tokens of every expression SemiringSymbolic can build are a product of that grammar whose
+   value is the expression's direct meaning. *)
+Theorem C05_symbolic_in_grammar : forall (aval : string -> R), aval "1"%string = 1%R ->
+  forall e, g_prod aval (tokens e) (denoteR aval e).
+Proof. exact tokens_in_grammar. Qed.
+Print Assumptions C05_symbolic_in_grammar.
 
 (* The expression-level model IS the source: the definitions the C12 translator regenerates from
    problog/evaluator.py on every run (class SemiringSymbolic) compute, on printed expressions, exactly
